@@ -29,6 +29,7 @@ def plan(tier):
 
 NUMS = ['1', '2', '3', '10', '9', '100', '-4', '0', '25', '7']
 # numeric strings that Python (int() / float()) and JavaScript (Number()) convert to the same number
+NUMS_NEG = ['0', '-1', '-3', '0', '-10', '-4', '0', '2']
 NUMS_DEC = ['1.5', '2e3', '5e-1', '1.5e2', '+5', '.5', '-0.25', '3.0', ' 7', '7 ', '1E2', '-.5', '10', '9', '0', '1e-05', '+2.5', '4.']
 KEYS = ['a', 'a b', 'a!', 'b', 'B', '', 'ab']
 
@@ -37,8 +38,12 @@ KEYS = ['a', 'a b', 'a!', 'b', 'B', '', 'ab']
 def st_agg_case(draw):
     n = draw(st.integers(0, 10))
     col1 = [draw(st.sampled_from(KEYS[:draw(st.integers(2, len(KEYS)))])) for _ in range(n)]
-    dec = draw(st.integers(0, 2)) == 0
-    col2 = [draw(st.sampled_from(NUMS_DEC if (dec and draw(st.integers(0, 2)) != 0) else NUMS)) for _ in range(n)]
+    mode = draw(st.integers(0, 5))
+    dec = mode <= 1
+    if mode == 2:
+        col2 = [draw(st.sampled_from(NUMS_NEG)) for _ in range(n)]       # zeros and negatives: extrema and sums that pass through 0
+    else:
+        col2 = [draw(st.sampled_from(NUMS_DEC if (dec and draw(st.integers(0, 2)) != 0) else NUMS)) for _ in range(n)]
     col3 = [draw(st.sampled_from(['9', '10', '100', '2'])) for _ in range(n)]
     A = [list(r) for r in zip(col1, col2, col3)]
     hdr = draw(st.booleans())
@@ -277,7 +282,7 @@ def shard(shard, nshards, tier, seed, scratch):
         failures = run_hypothesis(strategy(), lambda c: check_case(c, drv, stats), max(1, total // nshards), seed, shrink_budget=250 if tier == 'quick' else 1500)
         if shard == 1 and not failures:
             from .. import largecases
-            for which in ('select', 'order', 'join', 'update'):
+            for which in ('select', 'order', 'join', 'update', 'aggenum'):
                 for case in largecases.large_cases(which):
                     if not qgen.renderable(case['q'], 'js'):
                         continue
